@@ -37,3 +37,14 @@ Print Assumptions C18_events_balanced.
 
 Example C18_side_condition_inhabited : forall d fc m w, Forall plain_event (step_events (s_step d fc m w)).
 Proof. exact s_step_plain. Qed.
+
+From Verif Require Import Base.Bytes Model.Exec Proofs.Exec_generic Proofs.Exec_refine.
+(** the same theorem read for the debug-tracer stream: the event list of the run with the Artela additions, minus provider
+    queries, IS the event list of the run without them — every CaptureStart/End/Enter/Exit/State/Fault with its arguments *)
+Theorem C18_events_identical_with_additions : forall W M HT can_transfer transfer balance_of exists_acct create_account code_of collides get_nonce set_nonce acl_add set_code touch is_homestead is_eip158 is_berlin is_london max_code_size is_precompile precompile local_step init_machine keccak debug jpA alA aspA jpR alR bR aspR t0,
+  (forall d fc m w, Forall (fun e => is_jp_event e = false) (step_events (local_step d fc m w))) ->
+  (forall d fc m w, match local_step d fc m w with SJournal _ _ _ _ _ _ => False | _ => True end) ->
+  (forall a c i g, precompile a (Some c) i g = precompile a None i g) ->
+  forall fuel, PR W M HT can_transfer transfer balance_of exists_acct create_account code_of collides get_nonce set_nonce acl_add set_code touch is_homestead is_eip158 is_berlin is_london max_code_size is_precompile precompile local_step init_machine keccak debug jpA alA aspA jpR alR bR aspR t0 fuel.
+Proof. exact additions_invisible. Qed.
+Print Assumptions C18_events_identical_with_additions.
